@@ -143,6 +143,12 @@ def trimSp (b : Bytes) : Bytes := (b.dropWhile (· = SP)).reverse.dropWhile (· 
 
 def lowerB (b : UInt8) : UInt8 := if 65 ≤ b ∧ b ≤ 90 then b + 32 else b
 
+/-- the payload starts with one of the nine methods in any letter case (necessary for an answer of the responder,
+    whatever follows) -/
+def nocaseMethodPrefix (p : Bytes) : Bool :=
+  httpMethods.any fun m => decide ((p.take m.length).map lowerB = m.map lowerB)
+
+
 def headerValue (lines : List Bytes) (name : String) : Option Bytes :=
   let n := (name ++ ":").toUTF8.toList
   (lines.find? (fun l => (l.take n.length).map lowerB = n.map lowerB)).map (fun l => trimSp (l.drop n.length))
